@@ -1356,3 +1356,7 @@ def run(ctx):   # noqa: F811
     for rr in ctx.rules:
         if rr.id == "C02.A7":
             rr.id = "C10.R6"
+    ctx.guard(c02.rule_a14)          # close can abort what is pending: the cancel mark stays until the operation completes
+    for rr in ctx.rules:
+        if rr.id == "C02.A14":
+            rr.id = "C10.R14"
